@@ -111,6 +111,17 @@ CHECKS["C10"] = dict(level="model_checking", engine="E1-sequences",
    note="Where the statement is silent (a successor created exactly at the cutoff, successors on both sides of it, versions outside the vacuuming connection's ancestry) either outcome is accepted.",
    ref="§5 C10")
 
+CHECKS["C03"] = dict(level="model_checking", engine="E2-scheduler",
+   technique="stateless depth-first search over all schedules of a hand-written request-level controlled scheduler (one client runs at a time; points = LIST and every request under root/ plus statement boundaries) with sound global-state-key pruning; both retire orders of two parents via hook H4",
+   text="Eight scenarios (writer with two autocommit inserts || read-only opener; writer || read-write opener that then inserts; two unmerged heads merged by a read-write open || reader, both retire orders; writer || s3db_refresh of a live table; writer with a two-statement transaction || reader; writer || two successive read-only opens; thorough: two writers || reader and writer || merger || reader with iterative preemption bounding under a time budget, completed bound reported). Every interleaving of the real clients' object-store requests is executed on the real code; state key = bucket bytes + every client's position, everything it has been answered and its logical clock + the oracle's history facts. Per execution: every open sees every statement acknowledged before its first request, never a state that no set of committed versions explains (per-writer prefixes, transactions whole, never an empty table), no client errors, no deadlock; after all clients finish a fresh open contains every acknowledged statement. A recorded schedule is replayed twice and must give identical traces (determinism self-check).",
+   note="Trusted: node requests are not scheduling points (content-addressed, invisible until a version object refers to them; no vacuum in these scenarios); S3 strong consistency; SQLite/go-sqlite3 internals are not interleaved.",
+   ref="§5 C03")
+CHECKS["C19"] = dict(level="model_checking", engine="E2-scheduler",
+   technique="exhaustive schedule search (same controlled scheduler as C03) over independent statement streams with a solo-run differential oracle; plus an auxiliary, explicitly sampled free-running pass of the same bodies in a -race build",
+   text="2 (quick) / 2 and 3 (thorough) connections, each with its own statement stream (open, set/clear write_time, set a past/future deadline, INSERT/UPDATE/SELECT, BEGIN..COMMIT, refresh, vacuum, s3db_conn read-back, stored entry times read through the connection's own tree), run under every interleaving of visible requests and statement boundaries: on different bucket prefixes every connection's complete observation vector must equal that of its solo run (absolute isolation: this is what exposes a hoisted per-connection attribute block); on a shared prefix attributes, statement outcomes and stored times must still equal the solo run, own writes stay visible and a fresh open at the end shows exactly the accepted statements; no execution may end with a client neither finished nor at a point (deadlock). Auxiliary: the same bodies plus two connections on the lazily created in-memory bucket run free on OS threads in a binary built with -race (30 / 400 runs); any race report is a violation.",
+   note="Data-race freedom is sampled by the race detector, not enumerated (stated in evidence as race_pass.auxiliary_sampled); the exhaustive part is complete within the stated streams (thorough 3-connection runs report 'complete': false if the time budget ends first).",
+   ref="§5 C19")
+
 NOT_YET = {}
 
 props = [json.loads(l) for l in open("properties.jsonl")]
@@ -145,7 +156,10 @@ m = {
    "add_only": True,
  },
  "engines": [
-   {"name": "E1-sequences", "path": "engine/ + checks/", "serves_properties": sorted(CHECKS), "kind_free_text": "hand-written explicit-state / sequence explorer driving the real SQLite extension over a fake object store in worker subprocesses"},
+   {"name": "E1-sequences / E1-bfs / E1-histories", "path": "engine/{world,pool,run,walker}.go + checks/", "serves_properties": sorted(k for k,v in CHECKS.items() if v["engine"].startswith("E1")), "kind_free_text": "hand-written explicit-state search / exhaustive sequence and history enumeration driving the real SQLite extension (or the kv package) over a fake object store, in worker subprocesses"},
+   {"name": "E2-scheduler", "path": "engine/sched.go", "serves_properties": ["C03", "C19"], "kind_free_text": "hand-written request-level controlled scheduler with stateless DFS, global-state-key pruning and iterative preemption bounding"},
+   {"name": "E3-crash-cuts / E3-faults", "path": "engine/crash.go, engine/fakes3.go", "serves_properties": ["C04", "C14", "C12"], "kind_free_text": "enumeration of all down-closed subsets of a recorded mutation log (crash states) and of all single-fault positions x kinds x modes"},
+   {"name": "E4-domain", "path": "checks/c07.go c08.go c18.go c20.go", "serves_properties": ["C07", "C08", "C18", "C20"], "kind_free_text": "exhaustive enumeration of bounded input domains (boundary alphabets, grammar-generated argument lists, all bit flips)"},
  ],
  "checks": checks,
  "not_applicable": na,
